@@ -70,10 +70,27 @@ DIRECTED = {
 }  # fmt: skip
 
 
-def _mk(xml, qset, sparse, cone=None):
+ALLKINDS = ("""<mujoco><worldbody>
+<geom name="floor" type="plane" size="5 5 .1"/>
+<body name="a" pos="0 0 0.09"><freejoint/><geom size=".1"/></body>
+<body name="b" pos="0.5 0 0.09"><freejoint/><geom size=".1" condim="1"/></body>
+<body name="c" pos="0 1 1"><joint name="h1" type="hinge" axis="0 1 0" limited="true" range="-0.1 0.1" frictionloss="0.1"/><geom size=".1" pos="0.2 0 0"/>
+  <body name="d" pos="0.3 0 0"><joint name="h2" type="slide" axis="1 0 0" frictionloss="0.2"/><geom size=".05"/>
+    <body name="e" pos="0.3 0 0"><joint name="bl" type="ball" limited="true" range="0 0.2"/><geom size=".05" pos="0.1 0 0"/></body></body></body>
+</worldbody>
+<tendon><fixed name="t0" limited="true" range="-0.05 0.05" frictionloss="0.1"><joint joint="h1" coef="1"/><joint joint="h2" coef="2"/></fixed>
+<fixed name="t1"><joint joint="h2" coef="1"/></fixed></tendon>
+<equality><connect body1="c" body2="world" anchor="0 0 0.1"/><weld body1="e" body2="a"/><joint joint1="h1" joint2="h2" polycoef="0 1 0 0 0"/><tendon tendon1="t0" tendon2="t1" polycoef="0 1 0.1 0 0"/></equality>
+</mujoco>""", {"h1": 0.3, "h2": 0.2, "bl": [0.921, 0.389, 0, 0]})
+DISABLE_VARIANTS = ("CONTACT", "EQUALITY", "FRICTIONLOSS", "LIMIT", "CONSTRAINT")
+
+
+def _mk(xml, qset, sparse, cone=None, disable=None):
   import mujoco
 
   m = mujoco.MjModel.from_xml_string(xml)
+  if disable:
+    m.opt.disableflags |= int(getattr(mujoco.mjtDisableBit, "mjDSBL_" + disable))
   m.opt.jacobian = mujoco.mjtJacobian.mjJAC_SPARSE if sparse else mujoco.mjtJacobian.mjJAC_DENSE
   if cone is not None:
     m.opt.cone = cone
@@ -341,7 +358,7 @@ class Sweep:
     where = "naconmax=0" if cap == 0 else ("njmax=0" if njmax == 0 else ("njmax_nnz=0" if nz == 0 else "other"))
     return {
       "key": f"C16:exception-before-overflow-flag:{where}:{type(e).__name__}", "label": label, "xml": xml, "qpos": [float(v) for v in qpos],
-      "qvel": [float(v) for v in qvel], "sparse": sparse, "cone": int(m.opt.cone), "njmax": int(njmax), "njmax_nnz": int(nz), "naconmax": int(cap),
+      "qvel": [float(v) for v in qvel], "sparse": sparse, "cone": int(m.opt.cone), "disableflags": int(m.opt.disableflags), "njmax": int(njmax), "njmax_nnz": int(nz), "naconmax": int(cap),
       "overflow": None, "nefc": None, "exception": traceback.format_exc()[-700:],
     }  # fmt: skip
 
@@ -428,7 +445,7 @@ class Sweep:
           key = f"C16:silent-drop:{b or exact}"
         self.fails.append({
           "key": key, "label": label, "xml": xml, "qpos": [float(v) for v in qpos], "qvel": [float(v) for v in qvel], "sparse": sparse,
-          "cone": int(m.opt.cone), "njmax": int(njmax), "njmax_nnz": int(nz), "naconmax": BIG_CON, "overflow": o["overflow"], "nefc": o["nefc"],
+          "cone": int(m.opt.cone), "disableflags": int(m.opt.disableflags), "njmax": int(njmax), "njmax_nnz": int(nz), "naconmax": BIG_CON, "overflow": o["overflow"], "nefc": o["nefc"],
           "qacc": [float(v) for v in o["qacc"]], "qacc_ample": [float(v) for v in ref["qacc"]],
         })  # fmt: skip
     # ---- contact capacity sweep ----
@@ -470,7 +487,7 @@ class Sweep:
           key = "C16:collision-skipped-unflagged:naconmax=0" if cap == 0 else ("C16:contact-overflow-unflagged:write_contact" if o["nacon"] >= cap else "C16:contact-overflow-unflagged:_add_geom_pair")
           self.fails.append({
             "key": key, "label": label, "xml": xml, "qpos": [float(v) for v in qpos], "qvel": [float(v) for v in qvel],
-            "sparse": sparse, "cone": int(m.opt.cone), "njmax": BIG_J, "njmax_nnz": BIG_NNZ, "naconmax": cap, "overflow": o["overflow"], "nefc": o["nefc"],
+            "sparse": sparse, "cone": int(m.opt.cone), "disableflags": int(m.opt.disableflags), "njmax": BIG_J, "njmax_nnz": BIG_NNZ, "naconmax": cap, "overflow": o["overflow"], "nefc": o["nefc"],
             "qacc": [float(v) for v in o["qacc"]], "qacc_ample": [float(v) for v in ref["qacc"]],
           })  # fmt: skip
     return True
@@ -696,6 +713,9 @@ def model_specs(tier):
   for label in DIRECTED:
     for sparse in (False, True):
       specs.append(("directed", label, sparse))
+  for sparse in (True, False):
+    for dis in (None,) + DISABLE_VARIANTS:
+      specs.append(("allkinds", dis, sparse))
   for k in range(12 if tier == "quick" else 220):
     specs.append(("random", k, None))
   specs.append(("cdof", 0, None))
@@ -745,14 +765,18 @@ def worker_main(jobpath):
       viol = jtdaj_block_cases(acc, rng)
       emit("M", idx, {"label": "blocks", "defs": [], "lines": [], "meta": [], "fails": [], "viol": viol, "evals": acc.evals, "keys": acc.keys, "accepted": True, "skipped": 0})
       continue
-    if kind == "directed":
+    if kind == "allkinds":
+      xml, qset = ALLKINDS
+      sparse, label, pts = b, f"allkinds:disable={a}", 6
+      m, qpos, qvel = _mk(xml, qset, sparse, disable=a)
+    elif kind == "directed":
       xml, qset = DIRECTED[a]
       sparse, label, pts = b, f"directed:{a}", 4
       m, qpos, qvel = _mk(xml, qset, sparse)
     else:
       xml, m, qpos, qvel, sparse, cone = random_case(rng, a)
       label, pts = f"random:{a}", 10
-    cur.update({"label": label, "xml": xml, "qpos": [float(v) for v in qpos], "qvel": [float(v) for v in qvel], "sparse": sparse, "cone": int(m.opt.cone)})
+    cur.update({"label": label, "xml": xml, "qpos": [float(v) for v in qpos], "qvel": [float(v) for v in qvel], "sparse": sparse, "cone": int(m.opt.cone), "disableflags": int(m.opt.disableflags)})
     emit("S", idx, cur)
     sw = Sweep(acc, rng, progress=lambda j, z, c: emit("B", idx, [j, z, c]), skips=job["skips"].get(str(idx), []), avoid_below=job.get("avoid_below", 0))
     sw.zskip = zskip
@@ -1001,6 +1025,7 @@ def replay1(path):
   m = mujoco.MjModel.from_xml_string(r["xml"])
   m.opt.jacobian = mujoco.mjtJacobian.mjJAC_SPARSE if r["sparse"] else mujoco.mjtJacobian.mjJAC_DENSE
   m.opt.cone = r.get("cone", int(m.opt.cone))
+  m.opt.disableflags = r.get("disableflags", int(m.opt.disableflags))
   R = Real(m, np.array(r["qpos"], np.float32), np.array(r["qvel"], np.float32))
   a = R.step(BIG_J, BIG_NNZ, BIG_CON)
   print("qacc ample:", a["qacc"], "overflow", a["overflow"], flush=True)
